@@ -125,7 +125,12 @@ func ParseTime(text string) (t time.Time, err error) {
 	return
 }
 
-var headerNewlineToSpace = strings.NewReplacer("\n", " ", "\r", " ")
+var headerNewlineToSpace = strings.NewReplacer("\n", " ", "\r", " ", "\x00", " ")
+
+// validHeaderFieldName reports whether key is a token (RFC 7230 3.2.6).
+func validHeaderFieldName(key string) bool {
+	return key != "" && strings.IndexFunc(key, isNotToken) == -1
+}
 
 type writeStringer interface {
 	WriteString(string) (int, error)
@@ -191,6 +196,10 @@ func (h Header) WriteSubset(w io.Writer, exclude map[string]bool) error {
 	}
 	kvs, sorter := h.sortedKeyValues(exclude)
 	for _, kv := range kvs {
+		if !validHeaderFieldName(kv.key) {
+			// never emit a field name that can change the structure of the header block
+			continue
+		}
 		for _, v := range kv.values {
 			v = headerNewlineToSpace.Replace(v)
 			v = textproto.TrimString(v)
@@ -217,7 +226,7 @@ func (h Header) writeSubsetWithoutSort(w io.Writer, exclude map[string]bool) err
 	}
 
 	for k, vv := range h {
-		if exclude[k] {
+		if exclude[k] || !validHeaderFieldName(k) {
 			continue
 		}
 
